@@ -258,6 +258,6 @@ SUBS = [
         shards={"quick": 16, "thorough": 16}, doc="corpus reactions under representation changes and generated renumberings"),
     Sub("small_exhaustive", body_pair, enum=enum_small, exhaustive=True, shards={"quick": 8, "thorough": 16},
         doc="every ITS on n<=3 atoms over {C,H}; bond states {0,1,1.5,2}^2 (quick) / {0,1,1.5,2,3}^2 (thorough)"),
-    Sub("synthetic", body_pair, strategy=strat_pair, examples={"quick": 4000, "thorough": 200000},
+    Sub("synthetic", body_pair, strategy=strat_pair, examples={"quick": 4000, "thorough": 100000},
         shards={"quick": 8, "thorough": 16}, doc="ITSGraph of generated pairs, 2..12 atoms, incl. H-H bonds and aromatic orders"),
 ]
